@@ -1211,3 +1211,127 @@ class HistoryNative(Unit):
 
 
 UNITS_C19 = [ParseCustom, SrcParse, ProcDesc, Osrc, HistoryNative]
+
+
+# ------------------------------------------------------------------ bounded companion (C18 / C19): a world of fake parser modules
+FAKE_PARSERS = {            # module short name -> behaviour
+    'b0100': 'echo', 'b0200': 'raise', 'b0300': 'lazy-import-fails', 'b0400': 'null', 'b0500': 'import-raises', 'b00ab': 'echo',
+}
+FAKE_SRC = {
+    'echo': "import json\ndef parseUDToJson(subtype, version, data):\n    return json.dumps({'fake': __name__.split('.')[-1], 'subtype': subtype, 'version': version, 'data': bytes(data).hex()})\n",
+    'raise': "def parseUDToJson(subtype, version, data):\n    raise RuntimeError('parser bug')\n",
+    'lazy-import-fails': "def parseUDToJson(subtype, version, data):\n    import optional_dependency_that_is_not_installed\n",
+    'null': "import json\ndef parseUDToJson(subtype, version, data):\n    return json.dumps(None)\n",
+    'import-raises': "raise ValueError('broken at import time')\n",
+}
+PLUGIN_WORLD_HELPER = r'''
+import sys, os, json, io, contextlib
+fake_root, spec = sys.argv[1], json.loads(sys.argv[2])
+import udparsers
+udparsers.__path__.append(fake_root)
+from pel.peltool.user_data import UserData
+from pel.peltool.config import Config
+from pel.datastream import DataStream
+out = []
+for sec in spec:
+    data = bytes.fromhex(sec['data'])
+    c = Config()
+    c.allow_plugins = sec['plugins']
+    st = DataStream(data, byte_order='big', is_signed=False)
+    buf, err = io.StringIO(), io.StringIO()
+    try:
+        with contextlib.redirect_stdout(buf), contextlib.redirect_stderr(err):
+            ud = UserData(st, 0x5544, 8 + len(data), sec['ver'], sec['sub'], sec['comp'], sec['creator'])
+            j = ud.toJSON(c)
+        out.append(['ok', json.loads(json.dumps(j)), buf.getvalue()])
+    except BaseException as e:
+        out.append(['raise', type(e).__name__ + ': ' + str(e), buf.getvalue()])
+print(json.dumps(out))
+'''
+
+
+class PluginWorldNative(Unit):
+    """bounded companion (C18, C19): user-data sections decoded in one process against fake parser modules that echo their
+    arguments, raise, fail a lazy import, return null, break at import time, or do not exist - each section must show what
+    its own module produces (or the error note + full hex dump), whatever was decoded before it"""
+    prop = "C18"
+    name = "user-data sections against a world of fake parser modules (bounded)"
+    target = PUD + "ParseUserData.parseCustom"
+    kind = 'B'
+    modes = ('assert',)
+
+    def inputs(self, S):
+        if hasattr(S, 'rng'):
+            r = S.rng
+            secs = []
+            for _ in range(r.randrange(1, 7)):
+                comp = r.choice([0x0100, 0x0200, 0x0300, 0x0400, 0x0500, 0x0600, 0x00AB, 0x1000])
+                secs.append(dict(creator=r.choice(['B', 'B', 'B', 'H']), comp=comp, sub=r.randrange(256), ver=r.randrange(256),
+                                 data=bytes(r.randrange(256) for _k in range(r.choice([1, 2, 5, 16, 17, 40]))).hex(),
+                                 plugins=r.random() < 0.85))
+            S.log['secs'] = secs
+        else:
+            secs = S.values['secs']
+        return dict(secs=secs)
+
+    def call_native(self, inp):
+        import subprocess, sys, tempfile, os, json, shutil
+        d = tempfile.mkdtemp(prefix="pyvc_plug_")
+        try:
+            for name, beh in FAKE_PARSERS.items():
+                os.makedirs(os.path.join(d, name))
+                open(os.path.join(d, name, "__init__.py"), 'w').close()
+                with open(os.path.join(d, name, name + ".py"), 'w') as f:
+                    f.write(FAKE_SRC[beh])
+            r = subprocess.run([sys.executable] + (['-O'] if sys.flags.optimize else []) + ['-c', PLUGIN_WORLD_HELPER, d, json.dumps(inp['secs'])],
+                               capture_output=True, text=True, env=dict(os.environ, PYTHONDONTWRITEBYTECODE='1'), timeout=120)
+            return json.loads(r.stdout.strip().splitlines()[-1]) if r.stdout.strip() else [['crash', r.stderr[-400:], '']] * len(inp['secs'])
+        finally:
+            shutil.rmtree(d, ignore_errors=True)
+
+    def check(self, P, inp, old, out):
+        from pel.hexdump import hexdump
+        P.prove(out.returned, "the helper process runs")
+        if not out.returned:
+            return
+        ok_all, why = True, None
+        for sec, res in zip(inp['secs'], out.value):
+            data = bytes.fromhex(sec['data'])
+            name = (sec['creator'].lower() + "%04X" % sec['comp']).lower()
+            beh = FAKE_PARSERS.get(name, 'absent')
+            dump = hexdump(memoryview(data)) if data else None
+            if res[0] != 'ok':
+                ok, exp = False, 'no exception may escape a user-data section'
+            else:
+                j = {k: v for k, v in res[1].items() if k != "Created by"}
+                base = {"Section Version": sec['ver'], "Sub-section type": sec['sub']}
+                if not sec['plugins']:
+                    exp = dict(base, **({"Data": dump} if data else {}))
+                    ok = j == exp
+                elif not data and beh != 'import-raises':
+                    # nothing to hand to a parser: an empty string is shown
+                    exp = dict(base, Data="")
+                    ok = j == exp
+                elif beh == 'echo':
+                    exp = dict(base, fake=name, subtype=sec['sub'], version=sec['ver'], data=sec['data'])
+                    ok = j == exp
+                elif beh == 'absent':
+                    exp = dict(base, Data=dump)
+                    ok = j == exp
+                elif beh == 'null':
+                    exp = dict(base, Error='Parser returned a value of None ...', Data=dump)
+                    ok = set(j) == set(exp) and j.get("Data") == dump and str(j.get("Error", "")).startswith("Parser returned a value of None")
+                else:       # raise / lazy-import-fails / import-raises: contained, reported, payload preserved
+                    exp = dict(base, Error='Failed parsing user data ...', **({"Data": dump} if data else {}))
+                    ok = set(j) == set(exp) and (not data or j.get("Data") == dump) and \
+                        str(j.get("Error", "")).startswith("Failed parsing user data") and \
+                        all(j.get(k) == base[k] for k in base)
+                ok = ok and res[2] == ""
+            if not ok and why is None:
+                ok_all, why = False, dict(section=sec, module=name, behaviour=beh, got=res, expected=exp)
+        P.prove(ok_all, "every section shows what its own parser module produces for exactly its sub-type, version and payload - or the "
+                "error note with the full hex dump - whatever was decoded before it, and prints nothing on stdout" + ("" if ok_all else " :: %r" % (why,)))
+
+
+UNITS_C18 = UNITS_C18 + [PluginWorldNative]
+UNITS_C19 = UNITS_C19 + [PluginWorldNative]
